@@ -193,6 +193,9 @@ pub open spec fn g_dec_lit(inp: Seq<u8>, depth: int) -> Option<(Seq<u8>, Seq<u8>
             Some((out, rest)) => Some((seq![0x0au8] + out, rest)),
             None => None,
         }
+    } else if inp[0] == LP && depth >= CAP {
+        // lopdf's reader follows at most CAP levels of nested parentheses (MAX_BRACKET) and gives up on more
+        None
     } else {
         let d2 = if inp[0] == LP { depth + 1 } else if inp[0] == RP { depth - 1 } else { depth };
         match g_dec_lit(inp.subrange(1, inp.len() as int), d2) {
@@ -214,6 +217,7 @@ proof fn g_lemma_render_split(s: Seq<u8>, i: int)
         assert(render(s, i + 1) =~= render(s, i) + render_byte(s, i));
     }
 }
+proof fn g_lemma_h_cap(s: Seq<u8>, i: int) ensures h(s, i) <= CAP decreases i { if i > 0 { g_lemma_h_cap(s, i - 1); } }
 proof fn g_lemma_m_bounds(s: Seq<u8>, i: int)
     requires 0 <= i <= s.len()
     ensures 0 <= m(s, i) <= h(s, i)
@@ -256,13 +260,14 @@ proof fn g_lemma_lit_roundtrip(s: Seq<u8>, i: int, rest: Seq<u8>)
             assert(inp[0] == c);
             assert(c != CR && c != BS);
             if c == RP { assert(h(s, i) > 0); assert(d >= 1); assert(d1 == d - 1); }
-            else if c == LP { assert(d1 == d + 1); }
+            else if c == LP { g_lemma_h_cap(s, i + 1); assert(h(s, i) < CAP); assert(d1 == d + 1); assert(d < CAP); }
             else { assert(d1 == d); }
         }
     }
 }
-/// THEOREM (literal strings): the ISO literal-string reader applied to what write_string emits gives back the bytes,
-/// for every byte string (unbalanced parentheses, backslashes, carriage returns, binary data).
+/// THEOREM (literal strings): the ISO literal-string reader, restricted to CAP levels of nested parentheses as lopdf's
+/// own reader is, applied to what write_string emits gives back the bytes, for every byte string (unbalanced and
+/// arbitrarily deeply nested parentheses, backslashes, carriage returns, binary data).
 pub proof fn theorem_lit_roundtrip(s: Seq<u8>, rest: Seq<u8>)
     ensures enc_lit(s)[0] == LP, g_dec_lit(enc_lit(s).subrange(1, enc_lit(s).len() as int) + rest, 0) == Some((s, rest))
 {
